@@ -168,6 +168,9 @@ func c02Enum(t *testing.T, out *vfOut, r *vfRand, n int) {
 	emit := func(tag string, shapes []c02Shape) func(idx []int) {
 		return func(idx []int) {
 			in := c02EnumCase(shapes, idx)
+			for _, k := range idx { // deterministic spread over the generations
+				in.Gen = (in.Gen + k + 1) % 3
+			}
 			obs := VfC02RunEnum(&in)
 			out.Emit(vfCase{ID: fmt.Sprintf("enum-%s-%v", tag, idx), Src: "gen", Grp: "enum", In: in, Obs: obs})
 		}
